@@ -111,6 +111,10 @@ def run(cx):
     res = pe.emit_program(setup=[l2.decl_node("Potentiometer")], loop=[])
     r.check("pinMode(A0, INPUT);" in (res.text or ""), "pot.decl/pinMode-INPUT", (em, em.func("emit")), "a potentiometer pin must be configured as INPUT")
 
+    # a sensor read written twice is performed twice: tuple assignment keeps one evaluation per right-hand side
+    from . import c01
+    c01.tuple_rhs_once(r, pm)
+
     # ---- C15-ULTRA ---------------------------------------------------------------------------
     r = cx.rule("C15-ULTRA", "the ultrasonic helper retries at most 3 times, waits out the 60 ms minimum interval (only once the clock is running) before triggering, stamps the trigger time after the echo, converts with 0.0343/2 and falls back to the last good reading, else 400", floor=12)
     res = pe.emit_program(setup=[l2.decl_node("Ultrasonic")], loop=[cls["ExprStmt"](expr="__redu_ultrasonic_measure_dev()")], ultrasonic={"dev"})
